@@ -79,14 +79,16 @@ def shrink(case):
 
 MANIFEST = {
     "text": "Model: every file-system mutation of the I/O loop appends the resulting directory to a trace; reopening is NewDiskQueue on any trace entry. "
-            "Theorems (Props/C08.v): for every history of puts, gets and sync ticks within the first segment, every crash point (after each segment "
-            "write, fsync, metadata temp write, metadata rename) is reopened without panic and drains to a contiguous run E[sr..sw) of the enqueued "
-            "messages, intact and in order, with sr not beyond what was handed to the consumer (run invariant over file contents, metadata and the "
-            "whole crash trace; recovery lemma through the buffered reader); metadata round trip with stale .tmp bytes; frame round trip. "
+            "Theorems (Props/C08.v): for EVERY history of puts, gets and sync ticks (any maxBytesPerFile, any syncEvery, messages < 2^31 bytes: roll-over, "
+            "over-sized messages, removal of consumed segments), every crash point (after each segment write, fsync, metadata temp write, metadata rename, "
+            "segment removal) is reopened without panic and drains to a contiguous run E[sr..sw) of the enqueued messages, intact and in order, with sr not "
+            "beyond what was handed to the consumer (C08_crash_at_any_point_all_segments; run invariant carrying an image for every recorded directory: "
+            "closed files complete, write file possibly longer than the metadata says, depth possibly stale, the metadata's read file present or already "
+            "removed — then recovery goes through handleReadError to the next file); the first-segment version; recovery from any single image; "
+            "metadata round trip with stale .tmp bytes; frame round trip. "
             "Tie: crash-point hook in the real queue, every distinct directory state restored and drained by a real queue; recover_ok evaluated on "
             "the real drains, then compared with the model's directory and drain.",
-    "note": "partial: crash points in histories with segment roll-over, and the bound on sr at the very moment of the crash, are covered by the "
-            "recover_ok acceptor on real recoveries, not by the theorem. Crash model: process death with completed syscalls durable. What a "
-            "recovered queue does with new puts after an unsynced tail was left behind is outside this property (noted in DESIGN.md). "
-            "Trusted: Coq kernel+VM, OS file semantics.",
+    "note": "The theorem's histories have no clean restart inside them (Close/reopen sequences are C09's theorem; crash points of histories that contain "
+            "a restart are covered by the differential run). Crash model: process death with completed syscalls durable. What a recovered queue does with "
+            "new puts after an unsynced tail was left behind is outside this property (noted in DESIGN.md). Trusted: Coq kernel+VM, OS file semantics.",
 }
